@@ -17,14 +17,15 @@ import (
 type typesT = types.Type
 
 type Env struct {
-	x      *Exec
-	st     *State
-	oldSt  *State // state for old(); nil => same as st
-	vars   map[string]SV
-	pkg    *types.Package
-	lookup func(name string) (SV, bool) // extra resolver (loop locals)
-	inSpec bool                         // inside a spec function body: no heap
-	visited func() (*Term, types.Type)  // visited-key set of the enclosing map range loop
+	x           *Exec
+	st          *State
+	oldSt       *State // state for old(); nil => same as st
+	vars        map[string]SV
+	pkg         *types.Package
+	lookup      func(name string) (SV, bool) // extra resolver (loop locals)
+	inSpec      bool                         // inside a spec function body: no heap
+	visited     func() (*Term, types.Type)   // visited-key set of the enclosing map range loop
+	assumeFresh bool                         // evaluating a callee postcondition at a call site: fresh(x) names a new allocation
 }
 
 func (e *Env) child() *Env {
@@ -940,6 +941,12 @@ func (e *Env) evalCall(n *ast.CallExpr, hint types.Type) SV {
 			a := e.eval(n.Args[0], nil)
 			b := e.eval(n.Args[1], nil)
 			return scalarSV(boolT, Eq(a.l[0], b.l[0]))
+		case "fresh": // fresh(x): the object x refers to was allocated during this call (postconditions only)
+			a := e.eval(n.Args[0], nil)
+			if e.assumeFresh {
+				return scalarSV(boolT, Eq(a.l[0], e.x.freshRef(e.st)))
+			}
+			return scalarSV(boolT, BvCmp("bvuge", a.l[0], mkBVu(0x80000000, 32)))
 		case "typeis": // typeis(ifaceValue, T): dynamic type test
 			v := e.eval(n.Args[0], nil)
 			ty := e.resolveType(n.Args[1])
